@@ -127,7 +127,17 @@ func c15(p *Prog, r *Report) {
 
 // entropyReach: shortest call paths from fn to an entropy source.
 func (p *Prog) entropyReach(fn *ssa.Function) []string {
-	parent := p.Reach([]*ssa.Function{fn}, func(g *ssa.Function) bool { return true })
+	// descend into pat-go and third-party bodies; standard-library functions
+	// are leaves (their internal interface dispatch, e.g. io.Reader inside
+	// fmt/math/big scanning, would connect everything to everything) and count
+	// only if they are themselves entropy APIs
+	visited := map[*ssa.Function]bool{}
+	parent := p.Reach([]*ssa.Function{fn}, func(g *ssa.Function) bool {
+		visited[g] = true
+		return true
+	})
+	_ = visited
+	parent = p.reachNoStdBodies(fn)
 	var hits []string
 	for g := range parent {
 		n := g.RelString(nil)
@@ -163,4 +173,46 @@ func isEntropySink(n string) bool {
 		return true
 	}
 	return strings.HasPrefix(n, "math/rand.") || strings.HasPrefix(n, "math/rand/v2.") || strings.HasPrefix(n, "(*crypto/rand.")
+}
+
+// reachNoStdBodies: forward reachability where std functions are recorded but
+// not descended into.
+func (p *Prog) reachNoStdBodies(fn *ssa.Function) map[*ssa.Function]*ssa.Function {
+	parent := map[*ssa.Function]*ssa.Function{fn: nil}
+	work := []*ssa.Function{fn}
+	for len(work) > 0 {
+		f := work[0]
+		work = work[1:]
+		if f.Blocks == nil {
+			continue
+		}
+		pk := fnPkgPath(f)
+		if f != fn && !strings.Contains(pk, ".") {
+			continue // standard library: leaf
+		}
+		visit := func(g *ssa.Function) {
+			if g == nil {
+				return
+			}
+			if _, ok := parent[g]; ok {
+				return
+			}
+			parent[g] = f
+			work = append(work, g)
+		}
+		for _, b := range f.Blocks {
+			for _, in := range b.Instrs {
+				switch in := in.(type) {
+				case ssa.CallInstruction:
+					cs, _ := p.Callees(in)
+					for _, g := range cs {
+						visit(g)
+					}
+				case *ssa.MakeClosure:
+					visit(in.Fn.(*ssa.Function))
+				}
+			}
+		}
+	}
+	return parent
 }
